@@ -336,7 +336,6 @@ struct HistOut {
     ops: Vec<OpResult>,
     seen: HashMap<i64, Vec<Seen>>,
     /// (seq, version) of every metadata id announced to the client in a PREPARED or ROWS response
-    #[allow(dead_code)]
     log: Arc<crate::mock::log::EventLog>,
     violations: Vec<String>,
     build_error: Option<String>,
@@ -574,6 +573,32 @@ fn judge(o: &mut Outcome, h: &Hist, r: &HistOut) {
                 // the driver re-prepares and repeats ONCE; if the repeat is answered UNPREPARED again (a second
                 // eviction hit the same execution) the error may surface: counted, not asserted
                 let unprepared_answers = seen.iter().filter(|s| s.answered == "UNPREPARED").count();
+                if unprepared_answers >= 2 && !op.after_id_change && !h.endless_unprepared {
+                    // ... but only if the driver did re-prepare in between: a PREPARE of the statement must have
+                    // reached that node between the two UNPREPARED answers (node's own log)
+                    let un: Vec<&Seen> = seen.iter().filter(|s| s.answered == "UNPREPARED").collect();
+                    let snapshot = r.log.snapshot();
+                    let mut re_prepared = true;
+                    for w in un.windows(2) {
+                        if w[0].node != w[1].node {
+                            continue;
+                        }
+                        let between = snapshot.iter().any(|l| {
+                            l.seq > w[0].recv_seq
+                                && l.seq < w[1].recv_seq
+                                && matches!(&l.ev, crate::mock::log::Ev::Recv { node, request, .. } if *node == w[0].node && matches!(&**request, Request::Prepare { query } if query == SEL || query == INS))
+                        });
+                        if !between {
+                            re_prepared = false;
+                        }
+                    }
+                    if re_prepared {
+                        o.class("evicted-twice-during-one-execution(not-asserted)");
+                    } else {
+                        o.violation("c14:repeated-without-re-preparing", format!("{} of pk {}: answered UNPREPARED twice by the same node, and no PREPARE of the statement reached that node in between; the caller got {e}", op.api, op.pk), replay.clone());
+                    }
+                    continue;
+                }
                 if unprepared_answers >= 2 && !op.after_id_change {
                     o.class("evicted-twice-during-one-execution(not-asserted)");
                     continue;
